@@ -173,6 +173,16 @@ def gen_plan(streams, tier):
         elif x < 0.65:                     # one substitution
             j = rnd.randrange(len(s0))
             objs[1] = {"seq": s0[:j] + rnd.choice(AA) + s0[j + 1:], "how": "string"}
+        elif x < 0.85 and len(s0) <= 30:   # tandem repeat / proportional composition: same fractions, different counts
+            k = rnd.choice((2, 2, 3))
+            rep = s0 * k
+            if rnd.random() < 0.5:
+                l = list(rep)
+                rnd.shuffle(l)
+                rep = "".join(l)
+            objs[1] = {"seq": rep, "how": "string"}
+            if nobj > 2 and rnd.random() < 0.5:
+                objs[2] = {"seq": s0 * (5 - k), "how": "string"}
     p_invalid = rnd.choice((0.0, 0.15, 0.4))
     p_mut = rnd.choice((0.0, 0.05, 0.15))
     p_pattern = rnd.choice((0.1, 0.3))
@@ -219,6 +229,9 @@ def corpus():
                                                       {"o": 0, "q": ["get_full_phosphostatus_kappa_distribution", [], {}]}, {"o": 0, "q": ["get_phosphosites", [], {}]},
                                                       {"o": 0, "m": ["clear_phosphosites", [], {}]}, {"o": 0, "q": ["get_phosphosequence", [], {}]},
                                                       {"o": 0, "q": ["get_deltaMax", [True], {}]}])
+    mk("monomer_dimer_trimer", ["GKEGSTKEDP", "GKEGSTKEDP" * 2, "GKEGSTKEDP" * 3],
+       [{"o": o, "q": [n, [], {}]} for n in ("get_deltaMax", "get_kappa", "get_Omega", "get_SCD", "get_isoelectric_point") for o in (0, 1, 2)] +
+       [{"o": o, "q": ["get_kappa_X", [["E", "D"], ["K", "R"]], {}]} for o in (2, 1, 0)] + [{"o": o, "q": ["get_deltaMax", [True], {}]} for o in (1, 0, 2)])
     mk("shuffle_child_then_permutant", ["GKEGKEGKEGKEGSTY"], [{"o": 0, "q": ["get_kappa", [], {}]}, {"o": 0, "shuffle": {"fz": [0, 1]}},
                                                               {"o": 1, "q": ["get_deltaMax", [True], {}]}, {"o": 1, "q": ["get_kappa", [], {}]},
                                                               {"o": 0, "q": ["get_deltaMax", [True], {}]}])
